@@ -264,6 +264,14 @@ func numericStrata(ctx *Ctx, salt string, fracInt bool, args []string) []*sem.Ca
 								lo += 0.5
 								hi += 0.25
 							}
+							if typ == "number" && r.Chance(0.2) {
+								// whole-number bounds that no 64-bit integer holds (a uint64 range written as a number, 1e19 ...):
+								// values well inside the interval are ordinary documents
+								hi = sg.PickOf(r, []float64{18446744073709551615, 1e19, 1e20, 9223372036854775808, 1.7976931348623157e308})
+								if r.Chance(0.5) {
+									lo = -sg.PickOf(r, []float64{1e19, 9223372036854775808, 1e30})
+								}
+							}
 							rel := func(b float64) float64 { // exclusive constant relative to the inclusive one
 								switch r.IntN(3) {
 								case 0:
